@@ -57,7 +57,9 @@ def spec_tokens(s):
 
 def width(word, widths):
     total = 0
-    for m in re.finditer(r"\{[^}]*\}", word): total += widths.get(m.group(0), widths.get("default", 0))
+    for m in re.finditer(r"\{[^}]*\}", word):
+        # the built-in TEST font gives every control code the same width
+        total += widths["__code__"] if "__code__" in widths else widths.get(m.group(0), widths.get("default", 0))
     rest = re.sub(r"\{[^}]*\}", "", word)
     for ch in rest: total += widths.get(ch, widths.get("default", 0))
     return total
@@ -152,7 +154,7 @@ def oracle_C07(case, res):
         if res["kind"] != "ERR": return "unknown font accepted"
         return None
     if res["kind"] != "OK": return "FormatText failed: %r" % res
-    widths = m["widths"] if m["fid"] == "F1" else ({"default": 10, "{PLAYER}": 100, "{PK}": 100, "{A B}": 100, "{}": 100} if m["fid"] == "TEST" else {})
+    widths = m["widths"] if m["fid"] == "F1" else ({"default": 10, "__code__": 100} if m["fid"] == "TEST" else {})
     return check_format(m["text"], m["mx"], m["ov"], m["nl"], widths, res["text"])
 
 # ---------------- C17 ----------------
